@@ -1319,7 +1319,7 @@ class KVDef(EntAttribute):
 
                     file.write(f'\t\t{value}: ')
                     # Newlines aren't functional here, just replace.
-                    _write_longstring(file, False, name.replace('\n', ' '), indent='\t\t')
+                    _write_longstring(file, custom_syntax, name.replace('\n', ' '), indent='\t\t')
                     if tags and custom_syntax:
                         file.write(f' [{", ".join(sorted(tags))}]\n')
                     else:
